@@ -140,6 +140,22 @@ fn c05_program(rng: &mut Rng, kind: u64) -> Vec<u8> {
             // INC PC style: write PC/SP through MOV with constants: MOV PC,c / LDSP (R0+) ...
             p.extend(&[0xFB, rng.byte(), 0x10, 0xF0, 0x40, 0x02, 0x02, 0xF0, 0x13]);
         }
+        8 => {
+            // 0x00 / 0x01 as the SECOND opcode byte of a two-byte form: the instruction register is
+            // loaded with it, so the machine halts exactly as for a first byte
+            for _ in 0..(1 + rng.below(3)) {
+                p.push(0x02);
+            }
+            let pre = 0xF0 + rng.byte() % 16;
+            p.push(pre);
+            if (pre & 0x0F) == 0x0B || (pre & 0x0F) == 0x0F {
+                p.push(rng.byte() % 0xE0);
+            }
+            p.push(rng.byte() % 2);
+            for _ in 0..6 {
+                p.push(0x02);
+            }
+        }
         _ => {
             let len = 8 + rng.below(100) as usize;
             p = image(rng, len);
@@ -153,7 +169,7 @@ pub fn run_c05(out: &mut Out, seed: u64, thorough: bool) {
     let rounds = if thorough { 40 } else { 6 };
     let mut case = 0u64;
     for round in 0..rounds {
-        for kind in 0..8u64 {
+        for kind in 0..9u64 {
             for ss in SS {
                 let prog = c05_program(&mut rng, kind);
                 let n = prog.len();
